@@ -274,6 +274,23 @@ impl Ctx {
         }
     }
 
+    /// Merge thread-local tallies of passing cases (avoids lock traffic in
+    /// exhaustive loops).
+    pub fn merge_passed(&self, evals: u64, nontrivial: HashSet<u64>, labels: BTreeMap<String, u64>, samples: Vec<Value>) {
+        self.stats.evaluations.fetch_add(evals, Ordering::Relaxed);
+        self.stats.nontrivial.lock().unwrap().extend(nontrivial);
+        let mut l = self.stats.labels.lock().unwrap();
+        for (k, v) in labels {
+            *l.entry(k).or_insert(0) += v;
+        }
+        let mut sm = self.stats.samples.lock().unwrap();
+        for s in samples {
+            if sm.len() < 6 {
+                sm.push(s);
+            }
+        }
+    }
+
     pub fn set_extra(&self, k: &str, v: Value) {
         self.stats.extra.lock().unwrap().insert(k.to_string(), v);
     }
